@@ -3,6 +3,12 @@
 # extra checks listed in seeded/EXTRA), 4 at a time, and writes seeded/RESULTS.md
 # and each meta.json's detected_by.
 cd /verif
+# run from a snapshot of the committed /verif so that /verif can be edited meanwhile
+SNAP=/tmp/wt/verifsnap
+git -C /verif worktree remove --force $SNAP >/dev/null 2>&1
+git -C /verif worktree add -q --detach $SNAP HEAD || exit 2
+(cd $SNAP/engine && GOFLAGS=-mod=mod GOPROXY=off GOSUMDB=off GOTOOLCHAIN=local go build -o $SNAP/bin/gosmt .) || exit 2
+export VERIF_SNAP=$SNAP
 OUT=/verif/seeded/RESULTS.tsv; : > $OUT.tmp
 jobs=()
 for d in seeded/C*-*/; do
@@ -10,8 +16,9 @@ for d in seeded/C*-*/; do
   checks="$p $(grep "^$s " seeded/EXTRA 2>/dev/null | cut -d' ' -f2-)"
   for c in $checks; do echo "$s $c"; done
 done > /tmp/seed_jobs.txt
-cat /tmp/seed_jobs.txt | xargs -P 4 -L 1 bash -c 'tools/seed_run.sh $0 $1' | tee $OUT.tmp
+cat /tmp/seed_jobs.txt | xargs -P 6 -L 1 bash -c '/verif/tools/seed_run.sh $0 $1' | tee $OUT.tmp
 sort $OUT.tmp > $OUT; rm $OUT.tmp
+git -C /verif worktree remove --force $SNAP
 python3 - <<'PY'
 import json,re,collections,os
 rows=collections.defaultdict(list)
